@@ -406,8 +406,7 @@ Proof.
     + apply Z.eqb_neq in E1, E2. split; [intros (k & Q); discriminate|].
       intros [(Q & _)|(_ & [Q|Q])]; [discriminate | contradiction | contradiction].
 Qed.
-Lemma detect_2d_count u il0 xl0 il1 xl1 tc ni nx k : detect_geometry u il0 xl0 il1 xl1 tc ni nx = G2d k ->
-  k = (if u then tc else if ni =? 1 then nx else ni).
+Lemma detect_2d_count u il0 xl0 il1 xl1 tc ni nx k : detect_geometry u il0 xl0 il1 xl1 tc ni nx = G2d k -> k = tc.
 Proof.
   unfold detect_geometry. destruct u.
   - destruct ((il0 =? 0) && (xl0 =? 0) && (il1 =? 0) && (xl1 =? 0)); intro Q; [injection Q; auto | discriminate].
